@@ -171,10 +171,13 @@ def edge (c : Cell) (k : Nat) : V3 := (edgeRaw c k).normalize
 def centerRaw (c : Cell) : V3 := rawPoint c.id
 def center (c : Cell) : V3 := (rawPoint c.id).normalize
 
+/-- `2 * dblEpsilon`: the margin of `Cell.ContainsPoint` after repair D46 (was `dblEpsilon`) -/
+def containsMargin : F64 := F64.mul F64.two dblEpsilon
+
 def containsPoint (c : Cell) (p : V3) : Bool :=
   match faceXYZToUV c.face p with
   | none => false
-  | some (u, v) => Rect2.containsPoint (Rect2.expandedByMargin c.uv dblEpsilon) u v
+  | some (u, v) => Rect2.containsPoint (Rect2.expandedByMargin c.uv containsMargin) u v
 
 def containsCell (c oc : Cell) : Bool := CellID.contains c.id oc.id
 def intersectsCell (c oc : Cell) : Bool := CellID.intersects c.id oc.id
